@@ -59,7 +59,9 @@ def lq_stream(ctx, nseq):
         ctx.case(json.dumps(s), nontriv)
         ctx.count("lq-ops", len(s))
         ref = {}       # id -> value: what the property says the queue holds (written from the property text, not from the model)
-        used, judged = set(), True
+        first = {}     # value -> (id, via, hops) of the entry that is waiting in the queue: a later discovery of the same URL must not replace it
+        out_now = set()   # values handed out and neither finished, reset nor given back by a restart
+        used, judged, disagreed = set(), True, False
         for i, (o, x, y) in enumerate(zip(s, a, b)):
             if o["op"] == "lqadd":
                 for ident, value, via, hops in o["urls"]:
@@ -68,9 +70,31 @@ def lq_stream(ctx, nseq):
                     used.add(ident)
                     if value not in ref.values():
                         ref[ident] = value
+                        first[value] = (ident, via, hops)
             elif o["op"] == "lqdelete":
                 for ident in o["ids"]:
-                    ref.pop(ident, None)
+                    v = ref.pop(ident, None)
+                    if v is not None:
+                        out_now.discard(v); first.pop(v, None)
+            elif o["op"] == "lqreset":
+                out_now.discard(ref.get(o["id"]))
+            elif o["op"] in ("lqabandon", "lqopen"):
+                out_now.clear()
+            if o["op"] == "lqget" and x.startswith("got ") and judged:
+                stop = False
+                for row in [q for q in x[4:].split(",") if q]:
+                    ident, value, via, hops = (row.split("|") + ["", "", ""])[:4]
+                    if value in out_now:
+                        ctx.violation("the local queue handed out %s a second time although it was neither reset, finished nor the job restarted "
+                                      "(queued twice)" % value, {"domain": "queue", "ops": s[:i + 1]})
+                        stop = True; break
+                    out_now.add(value)
+                    if value in first and (ident, via, str(hops)) != (first[value][0], first[value][1], str(first[value][2])):
+                        ctx.violation("the queue entry of %s came back as id=%s via=%r hops=%s, it was queued as id=%s via=%r hops=%s (a later "
+                                      "discovery of the same URL replaced it)" % ((value, ident, via, hops) + first[value]), {"domain": "queue", "ops": s[:i + 1]})
+                        stop = True; break
+                if stop:
+                    break
             if x.startswith("rows "):
                 vals = [row.split("|")[1] for row in x[5:].split(",") if row]
                 if judged and sorted(vals) != sorted(ref.values()) and len(vals) == len(set(vals)):
@@ -82,9 +106,10 @@ def lq_stream(ctx, nseq):
                 if len(vals) != len(set(vals)):
                     ctx.violation("the local queue holds a URL twice: %s" % sorted(vals), {"domain": "queue", "ops": s[:i + 1]})
                     break
-            if x != y:
+            if x != y and not disagreed:
+                # keep judging the implementation by the reference: a disagreement with the model is not by itself a violation
                 ctx.disagree({"ops": s[:i + 1]}, x, y)
-                break
+                disagreed = True
     ctx.sample(seqs[0][:8])
 
 
